@@ -78,6 +78,7 @@ type FuncContract struct {
 	RecvAssumes  map[string][]*Clause
 	GhostSets    []GhostSet
 	NoSafety     string // reason why panic-freedom obligations are not generated for this function
+	SpawnChecked bool   // the requires clauses are obligations of every go statement that starts this function
 }
 
 type GhostSet struct {
@@ -549,6 +550,8 @@ func (sp *Specs) LoadFile(path, pkgName string) error {
 			}
 		case "callsarg":
 			cur.CallsArg = true
+		case "spawn_checked":
+			cur.SpawnChecked = true
 		case "merge_paths":
 			cur.Merge = true
 		case "never_returns":
